@@ -1,5 +1,6 @@
 import ALV.Common.Json
 import ALV.Model.C13
+import ALV.Model.C13Call
 import ALV.Spec.C13
 import ALV.Spec.C13Hist
 import ALV.Model.C04
@@ -48,6 +49,45 @@ def resStrategyOf (s : String) : Except String ResStrategy :=
   | "freq_z_exp" => pure .freqZExp
   | _ => throw s!"C13: unknown resonator strategy {s}"
 
+def optStrategy (j : Json) : Except String (Option Strategy) :=
+  match optField j "strategy" with
+  | none => pure none
+  | some v => do pure (some (← strategyOf (← getStr v)))
+
+def optResStrategy (j : Json) : Except String (Option ResStrategy) :=
+  match optField j "strategy" with
+  | none => pure none
+  | some v => do pure (some (← resStrategyOf (← getStr v)))
+
+def optCombStrategy (j : Json) : Except String (Option CombStrategy) :=
+  match optField j "strategy" with
+  | none => pure none
+  | some v => do
+    match (← getStr v) with
+    | "fb" => pure (some .fb)
+    | "tau" => pure (some .tau)
+    | "ff" => pure (some .ff)
+    | st => throw s!"C13: unknown comb strategy {st}"
+
+def optErbStrategy (j : Json) : Except String (Option ErbStrategy) :=
+  match optField j "strategy" with
+  | none => pure none
+  | some v => do
+    match (← getStr v) with
+    | "gm90" => pure (some .gm90)
+    | "mg83" => pure (some .mg83)
+    | st => throw s!"C13: unknown erb strategy {st}"
+
+def optFloat (j : Json) (k : String) : Except String (Option Float) :=
+  match optField j k with
+  | none => pure none
+  | some v => do pure (some (← getFloat v))
+
+def optNat (j : Json) (k : String) : Except String (Option Nat) :=
+  match optField j k with
+  | none => pure none
+  | some v => do pure (some (← getNat v))
+
 def design (s : Coefs Float) (c : Contract Float) : Json :=
   Json.mkObj [("model", coefsJson s), ("spec", contractJson c), ("measured", measuredJson s c)]
 
@@ -55,92 +95,96 @@ def sections (ss : List (Coefs Float)) (cs : List (Contract Float)) : Json :=
   Json.mkObj [("model", arr coefsJson ss), ("spec", arr contractJson cs),
               ("measured", Json.arr ((ss.zip cs).map fun p => measuredJson p.1 p.2))]
 
-/-- run the C04 difference equation (`fspec`, zero memory) on the designed coefficients -/
-def runFilter (s : Coefs Float) (xs : List Float) : List Float :=
-  match s.den with
-  | [] => []
-  | a0 :: as => ALV.C04.fspec s.num as a0 0.0 (List.replicate as.length 0.0) [] xs
+/-- the gammatone call of a request: strategy (omitted = `sampled`), `phase` / `eta` omitted or given;
+`none` = the model predicts the `assert eta >= 1` to fail -/
+def gammatoneOf (j : Json) : Except String (Option (List (Coefs Float) × Bool)) := do
+  let f ← getFloat (← field j "freq")
+  let bw ← getFloat (← field j "bandwidth")
+  let st ← match optField j "strategy" with
+    | none => pure "sampled"
+    | some v => getStr v
+  match st with
+  | "sampled" =>
+    let ph ← optFloat j "phase"
+    let eta ← optNat j "eta"
+    if eta = some 0 then pure none else pure (some (gammatoneSampledCall f bw ph eta, true))
+  | "slaney" => pure (some (gammatoneSlaney f bw, true))
+  | "klapuri" => pure (some (gammatoneKlapuri f bw, false))
+  | st => throw s!"C13: unknown gammatone strategy {st}"
 
 /-- the sections of a constant design, as model coefficient lists (time-domain runs) -/
 def sectionsOf (j : Json) : Except String (List (Coefs Float)) := do
   match (← getStr (← field j "entry")) with
-  | "lowpass" =>
-    pure [lowpass (← strategyOf (← getStr (← field j "strategy"))) (← getFloat (← field j "cutoff"))]
-  | "highpass" =>
-    pure [highpass (← strategyOf (← getStr (← field j "strategy"))) (← getFloat (← field j "cutoff"))]
+  | "lowpass" => pure [lowpassCall (← optStrategy j) (← getFloat (← field j "cutoff"))]
+  | "highpass" => pure [highpassCall (← optStrategy j) (← getFloat (← field j "cutoff"))]
   | "resonator" =>
-    pure [resonator (← resStrategyOf (← getStr (← field j "strategy"))) (← getFloat (← field j "freq"))
-            (← getFloat (← field j "bandwidth"))]
+    pure [resonatorCall (← optResStrategy j) (← getFloat (← field j "freq")) (← getFloat (← field j "bandwidth"))]
   | "gammatone" =>
-    let f ← getFloat (← field j "freq")
-    let bw ← getFloat (← field j "bandwidth")
-    match (← getStr (← field j "strategy")) with
-    | "sampled" =>
-      pure (gammatoneSampled f bw (← getFloat (fieldD j "phase" (Json.int 0))) (← getNat (fieldD j "eta" (Json.int 4))))
-    | "slaney" => pure (gammatoneSlaney f bw)
-    | "klapuri" => pure (gammatoneKlapuri f bw)
-    | st => throw s!"C13: unknown gammatone strategy {st}"
+    match (← gammatoneOf j) with
+    | some (ss, _) => pure ss
+    | none => throw "C13: no time-domain run for eta = 0"
   | e => throw s!"C13: no time-domain run for entry {e}"
+
+def erbJson (r : Except Unit Float) : Json :=
+  match r with
+  | .ok v => Json.mkObj [("model", fl v)]
+  | .error _ => Json.mkObj [("err", Json.str "ValueError")]
 
 def handleOne (entry : String) (j : Json) : Except String Json := do
   match entry with
   | "lowpass" =>
-    let st ← strategyOf (← getStr (← field j "strategy"))
+    let st ← optStrategy j
     let c ← getFloat (← field j "cutoff")
-    pure <| design (lowpass st c) (lowpassSpec st c)
+    pure <| design (lowpassCall st c) (lowpassSpec (st.getD .pole) c)
   | "highpass" =>
-    let st ← strategyOf (← getStr (← field j "strategy"))
+    let st ← optStrategy j
     let c ← getFloat (← field j "cutoff")
-    pure <| design (highpass st c) (highpassSpec st c)
+    pure <| design (highpassCall st c) (highpassSpec (st.getD .z) c)
   | "resonator" =>
-    let st ← resStrategyOf (← getStr (← field j "strategy"))
+    let st ← optResStrategy j
     let f ← getFloat (← field j "freq")
     let bw ← getFloat (← field j "bandwidth")
-    pure <| design (resonator st f bw) (resonatorSpec st f bw)
+    pure <| design (resonatorCall st f bw) (resonatorSpec (st.getD .polesExp) f bw)
   | "comb" =>
-    let st ← getStr (← field j "strategy")
+    let st ← optCombStrategy j
     let d ← getNat (← field j "delay")
-    let p ← getFloat (← field j "param")
+    let p ← optFloat j "param"
     let xs ← getList getFloat (← field j "xs")
-    let (s, alpha, y) ← match st with
-      | "fb" => pure (combFb d p, p, combFbSpec d p xs)
-      | "tau" => pure (combTau d p, Float.exp (-(Float.ofNat d / p)), combFbSpec d (Float.exp (-(Float.ofNat d / p))) xs)
-      | "ff" => pure (combFf d p, p, combFfSpec d p xs)
-      | _ => throw s!"C13: unknown comb strategy {st}"
+    let s := combCall st d p
+    -- the documented difference equation with the documented alpha (omitted: 1; tau: e^(-delay/tau))
+    let alpha := match st.getD .fb, p with
+      | .tau, some tau => Float.exp (-(Float.ofNat d / tau))
+      | _, some a => a
+      | _, none => 1.0
+    let y := match st.getD .fb with
+      | .ff => combFfSpec d alpha xs
+      | _ => combFbSpec d alpha xs
     pure <| Json.mkObj [("model", coefsJson s), ("run", fls (runFilter s xs)),
                         ("spec", Json.mkObj [("alpha", fl alpha), ("out", fls y)])]
   | "gammatone" =>
-    let st ← getStr (← field j "strategy")
     let f ← getFloat (← field j "freq")
     let bw ← getFloat (← field j "bandwidth")
-    match st with
-    | "sampled" =>
-      let ph ← getFloat (fieldD j "phase" (Json.int 0))
-      let eta ← getNat (fieldD j "eta" (Json.int 4))
-      if eta = 0 then pure <| Json.mkObj [("err", Json.str "AssertionError")]
-      else
-        let ss := gammatoneSampled f bw ph eta
-        pure <| sections ss (ss.map fun _ => gammatoneSectionContract f bw true)
-    | "slaney" =>
-      let ss := gammatoneSlaney f bw
-      pure <| sections ss (ss.map fun _ => gammatoneSectionContract f bw true)
-    | "klapuri" =>
-      let ss := gammatoneKlapuri f bw
-      pure <| sections ss (ss.map fun _ => gammatoneSectionContract f bw false)
-    | _ => throw s!"C13: unknown gammatone strategy {st}"
+    match (← gammatoneOf j) with
+    | none => pure <| Json.mkObj [("err", Json.str "AssertionError")]
+    | some (ss, radius) => pure <| sections ss (ss.map fun _ => gammatoneSectionContract f bw radius)
   | "run" =>
     -- a designed filter (cascade: section after section) run by the C04 difference equation
     let ss ← sectionsOf (← field j "design")
     let xs ← getList getFloat (← field j "xs")
-    pure <| Json.mkObj [("run", fls (ss.foldl (fun acc s => runFilter s acc) xs))]
+    pure <| Json.mkObj [("run", fls (runCascade ss xs))]
   | "erb" =>
-    let st ← getStr (← field j "strategy")
+    let st ← optErbStrategy j
     let f ← getFloat (← field j "freq")
-    let hz ← getFloat (← field j "Hz")
-    match st with
-    | "gm90" => pure <| Json.mkObj [("model", fl (erbGm90 f hz))]
-    | "mg83" => pure <| Json.mkObj [("model", fl (erbMg83 f hz))]
-    | _ => throw s!"C13: unknown erb strategy {st}"
+    let hz ← optFloat j "Hz"
+    pure <| erbJson (erbCall st f hz)
+  | "erbmap" =>
+    let st ← optErbStrategy j
+    let fs ← getList getFloat (← field j "freqs")
+    let hz ← optFloat j "Hz"
+    let eager := match erbCallList st fs hz with
+      | .ok vs => Json.mkObj [("values", fls vs)]
+      | .error _ => Json.mkObj [("err", Json.str "ValueError")]
+    pure <| Json.mkObj [("eager", eager), ("lazy", arr erbJson (erbCallLazy st fs hz))]
   | "erb_constants" =>
     let n ← getNat (← field j "n")
     let r : Float × Float := gammatoneErbConstants n
